@@ -23,6 +23,10 @@ def run(ctx):
     P = ctx.program
     ctx.explanation = META["level"]
     st_ = P.func(FH, "database._setitem")
+    # R6 (an entry is replaced in one step) is evaluated first: it does not depend on the idiom recognition below
+    G.publication(ctx, "R6", FH, "database._setitem", {"param:cpv"}, "the cache entry")
+    G.always_reaches(ctx, "R6", FH, "database._setitem", lambda c: A.unparse(c.func) in ("os.rename", "os.replace"),
+                     "the rename that puts the new entry in place", "store-always-publishes")
     g = CFG.cfg_of(st_.node)
     dom = g.dominators()
     # ---- R1 temp + rename typestate -------------------------------------------------------------------
@@ -193,7 +197,6 @@ def run(ctx):
     ctx.floor("R5", 5)
 
     # ---- R6 an entry is replaced in one step -------------------------------------------------------------------------
-    G.publication(ctx, "R6", FH, "database._setitem", {"param:cpv"}, "the cache entry")
     ctx.floor("R6", 1)
 
 
